@@ -154,7 +154,7 @@ class LineRunner:
         finally:
             signal.setitimer(signal.ITIMER_REAL, 0)
 
-    def run(self, raw: bytes, *, label: str = '') -> dict:
+    def run(self, raw: bytes, *, label: str = '', keep: bool = False) -> dict:
         """Feed ``raw`` (complete lines).  Returns dict(kind, out, problems:
         [(rule, site, msg)], responses)."""
         if self.w is None or self.v.done:
@@ -272,12 +272,12 @@ class LineRunner:
                               f'{bytes(by.raw[b0:])!r:.100}'))
         out = bytes(v.raw[n0:])
         res = {'kind': kind, 'out': out, 'problems': probs,
-               'responses': v.responses[r0:],
+               'responses': v.responses[r0:], 'base': n0,
                'parse_error': v.parse_error}
         # reuse or rebuild
         if kind in ('hang',) or v.done or hang:
             self.drop()
-        else:
+        elif not keep:
             try:
                 if self.signature() != self.sig0:
                     self.drop()
